@@ -505,7 +505,7 @@ CHECKS = {
     "C07": {"run": run_c07, "replay": replay, "level": "exploration", "assumptions": ASSUME,
             "rule": RULE_B + "at least 2 operations; oracles = Miri (symbolic alignment check, Stacked Borrows; Tree Borrows and memcheck in the thorough tier) on hooks-off drivers, the verif-hooks shadow (bounds, alignment of loads and references, type/ownership of droppable spans) on native debug and release drivers, the compiler's misaligned-pointer-dereference check in debug builds"},
     "C15": {"run": run_c15, "replay": replay, "level": "fault_enumeration", "assumptions": ASSUME,
-            "rule": RULE_B + "the episode serialises a record (JSON text and bincode compared with a declaration-order model) and deserialises either its own encoding (from_str, from_value, bincode) or a malformed one (k-element prefix, undecodable element at position k, one extra element, truncated bincode) with k drawn per case; rejected inputs must leave the ledger population unchanged"},
+            "rule": RULE_B + "the episode serialises a record (JSON text and bincode compared with a declaration-order model) and deserialises either its own encoding (from_str, from_value, bincode) or a malformed one; in addition a deterministic sweep per module and capacity enumerates, for every variant, every k-element prefix, an undecodable element at every position k, one extra element (text and Value) and every byte-truncation of the bincode form; rejected inputs must leave the ledger population unchanged"},
     "C16": {"run": run_generic, "replay": replay, "level": "exploration", "assumptions": ASSUME,
-            "rule": RULE_B + "the episode clones a record (clone, clone_from, or a clone with a panic injected at the k-th instrumented field clone, k drawn per case); source and copy are both read back after every later operation"},
+            "rule": RULE_B + "the episode clones a record (clone, clone_from, or a clone with a panic injected at the k-th instrumented field clone); in addition a deterministic sweep per module and capacity injects the panic at every clone point of every variant, for clone and for clone_from; source and copy are both read back after every later operation"},
 }
